@@ -519,7 +519,9 @@ func (tree *Rtree) nearestNeighbor(p geom.Point, n *node, d float64,
 	if n.leaf {
 		for _, e := range n.entries {
 			dist := boxDist(p, e.bb)
-			if dist < d {
+			// (nearest == nil: a distance beyond the float64 range, or that of
+			// an object with empty bounds, is +Inf and beats nothing.)
+			if dist < d || nearest == nil {
 				d = dist
 				nearest = e.obj
 			}
@@ -529,7 +531,7 @@ func (tree *Rtree) nearestNeighbor(p geom.Point, n *node, d float64,
 		branches = pruneEntries(p, branches, dists)
 		for _, e := range branches {
 			subNearest, dist := tree.nearestNeighbor(p, e.child, d, nearest)
-			if dist < d {
+			if dist < d || nearest == nil {
 				d = dist
 				nearest = subNearest
 			}
@@ -553,7 +555,9 @@ func (tree *Rtree) NearestNeighbors(k int, p geom.Point) []geom.Geom {
 func insertNearest(k int, dists []float64, nearest []geom.Geom, dist float64,
 	obj geom.Geom) ([]float64, []geom.Geom) {
 	i := 0
-	for i < k && dist >= dists[i] {
+	// (an empty slot is taken whatever the distance: +Inf - a distance beyond
+	// the float64 range, an object with empty bounds - equals the sentinel.)
+	for i < k && nearest[i] != nil && dist >= dists[i] {
 		i++
 	}
 	if i >= k {
